@@ -10,6 +10,10 @@ of the buffer, the model on a window of 10 bytes. -/
 namespace XixiKV.TransEq
 open XixiKV XixiKV.Generated.Trans XixiKV.Frame XixiKV.Varint XixiKV.Record
 
+-- the `simp only` sets below list more lemmas than the present form of the Go functions needs (`if_pos`, `ite_self`,
+-- `or_true`, …): behaviour-preserving rewrites of the Go source go through unchanged (NOTES.md, robustness demo, round 4)
+set_option linter.unusedSimpArgs false
+
 /-! ## converse varint lemmas -/
 
 /-- a varint that decodes (`n ≠ 0`) on the whole list decodes in the same way on its first `k` bytes,
@@ -226,5 +230,50 @@ example : datafile.validLogRecord ⟨#[1, 4, 2, 0xac]⟩ = false := by decide
 example : datafile.validLogRecord ⟨#[1, 1, 0, 0]⟩ = false := by decide
 example : datafile.validLogRecord ⟨#[1, 0x80, 0x80, 0x80, 0x80, 0x80, 0x80, 0x80, 0x80, 0x80, 0x80, 0, 0, 0]⟩ = false := by decide
 example : datafile.validLogRecord ByteArray.empty = false := by decide
+
+/-! ## `validHintRecord` (a counted loop `for i := 0; i < 4; i++`: translated with the computed fuel 5) -/
+
+/-- `validHintRecord` as it stands in /repo accepts exactly the byte strings the model's `decodeHint` decodes;
+    the fuel of the counted loop suffices (`some`).  No range hypothesis: the index stays below 41. -/
+theorem trans_validHintRecord_eq (buf : ByteArray) :
+    datafile.validHintRecord buf = some (decodeHint buf).isSome := by
+  rcases Uvarint_cases buf 0 with ⟨v1, n1, hn1, hb1, m1, g1⟩ | ⟨m1, g1⟩
+  · rcases Uvarint_cases buf n1 with ⟨v2, n2, hn2, hb2, m2, g2⟩ | ⟨m2, g2⟩
+    · rcases Uvarint_cases buf (n1 + n2) with ⟨v3, n3, hn3, hb3, m3, g3⟩ | ⟨m3, g3⟩
+      · rcases Uvarint_cases buf (n1 + n2 + n3) with ⟨v4, n4, hn4, hb4, m4, g4⟩ | ⟨m4, g4⟩
+        · simp (disch := omega) only [datafile.validHintRecord, datafile.validHintRecord.loop0, datafile.validHintRecord.body0,
+            Ctl.step, Ctl.after, decodeHint, m1, g1, m2, g2, m3, g3, m4, g4, hn1, hn2, hn3, hn4,
+            i64_of_range, if_pos, if_neg, ↓reduceIte, Option.isSome]
+        · rcases m4 with m4 | ⟨v, m4⟩
+          all_goals simp (disch := omega) only [datafile.validHintRecord, datafile.validHintRecord.loop0,
+            datafile.validHintRecord.body0, Ctl.step, Ctl.after, decodeHint, m1, g1, m2, g2, m3, g3, m4, g4, hn1, hn2, hn3,
+            i64_of_range, if_pos, if_neg, ↓reduceIte, Option.isSome]
+      · rcases m3 with m3 | ⟨v, m3⟩
+        all_goals simp (disch := omega) only [datafile.validHintRecord, datafile.validHintRecord.loop0,
+          datafile.validHintRecord.body0, Ctl.step, Ctl.after, decodeHint, m1, g1, m2, g2, m3, g3, hn1, hn2,
+          i64_of_range, if_pos, if_neg, ↓reduceIte, Option.isSome]
+    · rcases m2 with m2 | ⟨v, m2⟩
+      all_goals simp (disch := omega) only [datafile.validHintRecord, datafile.validHintRecord.loop0,
+        datafile.validHintRecord.body0, Ctl.step, Ctl.after, decodeHint, m1, g1, m2, g2, hn1,
+        i64_of_range, if_pos, if_neg, ↓reduceIte, Option.isSome]
+  · rcases m1 with m1 | ⟨v, m1⟩
+    all_goals simp (disch := omega) only [datafile.validHintRecord, datafile.validHintRecord.loop0,
+      datafile.validHintRecord.body0, Ctl.step, Ctl.after, decodeHint, m1, g1,
+      i64_of_range, if_pos, if_neg, ↓reduceIte, Option.isSome]
+
+/-- every hint record the model encoder writes is accepted … -/
+theorem trans_validHintRecord_enc (key : ByteArray) (p : Pos) (h1 : p.fid < 2 ^ 32) (h2 : p.block < 2 ^ 32)
+    (h3 : p.off < 2 ^ 32) (h4 : p.size < 2 ^ 32) : datafile.validHintRecord (encodeHint key p) = some true := by
+  rw [trans_validHintRecord_eq, decodeHint_encodeHint key p h1 h2 h3 h4]; rfl
+
+/-! … an encoded hint record, the bare four varints (empty key), and refused inputs: three varints only, a fourth
+    varint that ends inside, an overflowing varint -/
+example : datafile.validHintRecord (encodeHint ⟨#[0x6b]⟩ ⟨3, 70000, 5, 300⟩) = some true :=
+  trans_validHintRecord_enc ⟨#[0x6b]⟩ ⟨3, 70000, 5, 300⟩ (by decide) (by decide) (by decide) (by decide)
+example : datafile.validHintRecord ⟨#[3, 0xf0, 0xa2, 0x04, 5, 0xac, 0x02]⟩ = some true := by decide +kernel
+example : datafile.validHintRecord ⟨#[3, 0xf0, 0xa2, 0x04, 5]⟩ = some false := by decide +kernel
+example : datafile.validHintRecord ⟨#[3, 0xf0, 0xa2, 0x04, 5, 0xac]⟩ = some false := by decide +kernel
+example : datafile.validHintRecord ⟨#[3, 4, 0x80, 0x80, 0x80, 0x80, 0x80, 0x80, 0x80, 0x80, 0x80, 0x02, 1]⟩ = some false := by decide +kernel
+example : datafile.validHintRecord ByteArray.empty = some false := by decide
 
 end XixiKV.TransEq
